@@ -9,6 +9,7 @@ PLAN = dict(
           "C + 1024 x input size (C = 1 MiB; 34 MiB for the signed-exchange prologue whose 3-byte fields are a stated constant). family: several inputs that differ "
           "ONLY in one declared length/count exceeding the content present (2^16 .. 2^64-1) must allocate the same amount within 256 KiB + input size. scaling: the same "
           "shape at 16/64/256 KiB (quick: 64 KiB) must stay within the linear bound. thorough: native coverage-guided fuzzing of five targets for panics. "
+          "The slot sweep also builds files with every section name in either version, one section made large (2.6 kB) in turn and placed in front of the responses, and moves every PAIR of fields together by 1 / 40 / 700 / 2650. "
           "Non-trivial: accepted inputs, family cases, inputs of >= 8 bytes."),
     assumptions=TRUSTED + ["allocation is measured as the runtime.MemStats.TotalAlloc delta around the call with nothing else running in the process (repeatable to ~16 KiB)",
                            "open known finding F12 (index entries with overlapping response ranges) is excluded from the allocation bound by construction and its pinned reproduction is reported as KNOWN-FINDING"],
